@@ -92,8 +92,8 @@ Proof. reflexivity. Qed.
 Lemma list_set_app_mid : forall {A} (a : list A) x b y,
   list_set (a ++ x :: b) (Z.of_nat (List.length a)) y = Some (a ++ y :: b).
 Proof.
-  intros A a x b y. unfold list_set. destruct (Z.ltb_spec (Z.of_nat (List.length a)) 0); [lia|].
-  rewrite Nat2Z.id. induction a as [|z a IH]; simpl; [reflexivity | rewrite IH; reflexivity].
+  intros A a x b y. unfold list_set. destruct (Z.ltb_spec (Z.of_nat (List.length a)) 0) as [H|_]; [lia|].
+  rewrite Nat2Z.id. clear. induction a as [|z a IH]; simpl; [reflexivity | rewrite IH; reflexivity].
 Qed.
 
 Lemma go_index_app_mid : forall {A} (a : list A) x b,
